@@ -112,11 +112,11 @@ PROPS["C02"] = {
 
 PROPS["C14"] = {
     "level": "proof",
-    "verus": [{"unit": "recognisers", "rlimit": 200}],
+    "verus": [{"unit": "recognisers", "rlimit": 200}, {"unit": "walkers", "rlimit": 200}, {"unit": "iterators", "rlimit": 200}],
     "kani": K_STRTAB,
     "trusted_base": [T1, T2, T4, T6, T8, VSTD, PERR],
-    "level_text": "Verus proof that whenever the validating skipper returns a fragment it is exactly data[ws_end..value_end) of a well-formed RFC 8259 value inside the input (skip_one postcondition), and every skipped string/number/container was well formed",
-    "level_note": "path walkers get_from_object_checked / get_from_array_checked and get_many are not yet under contract; UTF-8 validity of the prefix is simdutf8 (T4)",
+    "level_text": "Verus proof that whenever the validating skipper returns a fragment it is exactly data[ws_end..value_end) of a well-formed RFC 8259 value inside the input (skip_one postcondition); that checked get walkers succeed only if everything traversed (brackets, every earlier member/element, separators, key, colon) is well formed (object_lookup / array_lookup specs); and the same for each item of the checked iterators",
+    "level_note": "get_from_with_iter's generic path loop, get_many / get_by_schema walkers (trie, C11) are not under contract; parse_string_raw acceptance contract assumed in unit walkers; UTF-8 validity of the prefix is simdutf8 (T4)",
     "technique": TECH_V,
     "explanation": "skip_one: Ok((slice,_)) ==> slice == data[p..e) with value_end == Some(e)",
 }
@@ -136,10 +136,27 @@ PROPS["C12"] = {
     "explanation": "parse_array_elem_lazy / parse_entry_lazy / next_elem_impl / next_entry_impl contracts over the RFC grammar spec",
 }
 
+PROPS["C20"] = {
+    "level": "proof",
+    "verus": [{"unit": "errors", "rlimit": 200}, {"unit": "iterators", "rlimit": 200}],
+    "kani": [],
+    "syntactic": [{"name": "not-found codes are constructed only in get* functions", "fn": synt.notfound_only_in_get}],
+    "trusted_base": [T1, T4, T6, VSTD,
+                     "Reader::check_utf8_final / invalid_utf8: the offset reported by simdutf8 is <= len (T4) — assumed as the trait contract `err_ok`",
+                     "String formatting of the snippet (from_utf8_lossy, repeat, format!) is substituted by opaque helpers; Display is not covered",
+                     "errors made by serde visitors (make_error / parse_line_col) are not covered",
+                     "StreamDeserializer::next body is verified inside an inherent impl (Verus takes no contracts on foreign-trait impls)"],
+    "level_text": "Verus proof that every error built by the parser (Parser::error -> Error::syntax) carries an offset <= input length and exactly the line/column of that offset (Position::from_index against line_of/col_of), that the snippet window arithmetic and slicing cannot go out of bounds, that classify() yields NotFound only for the four lookup codes, and that the stream deserializer and both lazy iterators latch after an error or the end",
+    "level_note": "offsets of UTF-8 errors rest on simdutf8 (T4); message text/Display not covered",
+    "technique": TECH_V,
+    "explanation": "err_ok(e, data) := index <= len && line == line_of(index) && column == col_of(index)",
+}
+
 PROPS["C17"] = {
     "level": "proof",
     "verus": [],
     "kani": K_SIMD + K_PXOR + K_WS[1:] + K_STR2INT,
+    "syntactic": [{"name": "u8x*::gt (todo!() under sse2/avx2) has no call site", "fn": synt.u8_gt_never_called}],
     "trusted_base": [T3, KANI, "aarch64/NEON backend not covered (not this target)", "u8x*::gt is todo!() under sse2/avx2: no call site (syntactic)"],
     "level_text": "Kani/CBMC proofs over all lane contents that every vector primitive of every x86-64 backend (sse2, portable v128, avx2, portable v256, v512), prefix_xor, get_nonspace_bits and simd_str2int meets one lane-wise scalar contract; two implementations of the same functional contract are observationally equal",
     "level_note": "instructions Kani cannot execute are replaced by SDM-derived models (T3); codegen differences of target-cpu=native are not modelled",
